@@ -133,10 +133,12 @@ TagKey == <<"t">>
 ContentKey == <<"c">>
 InA == <<"i","n","_","a">>
 InB == <<"i","n","_","b">>
+InZ == <<"i","n","_","z">>
 MyField == <<"m","y","_","f","i","e","l","d">>
 NKey == <<"n">>
-\* the fixed nested derived struct `Inner { in_a: String, in_b: Option<i32> }`
-InnerFields(some) == <<KV(InA, JStr(S_)), KV(InB, IF some THEN JInt ELSE JNull)>>
+\* the fixed nested derived struct `Inner { in_z: String, in_b: Option<i32>, in_a: String }`: two required fields, declared in an order
+\* that is not the alphabetical one, with an optional one between them
+InnerFields(some) == <<KV(InZ, JStr(S_)), KV(InB, IF some THEN JInt ELSE JNull), KV(InA, JStr(S_))>>
 \* the fixed fields of every struct variant `{ my_field: String, n: Option<i32> }`
 SVFields(some) == <<KV(MyField, JStr(S_)), KV(NKey, IF some THEN JInt ELSE JNull)>>
 
@@ -168,7 +170,9 @@ StructFieldsFrom(d, i, some) ==
         ELSE <<KV(FieldKey(d, i), FieldVal(f, some))>>) \o StructFieldsFrom(d, i + 1, some)
 
 VariantTag(d, i) == LET v == d.variants[i] IN IF v.rclass # "none" THEN v.rename ELSE SerdeVariant(d.ra, v.name)
-PayloadFields(v, some) == IF v.shape = "struct" THEN SVFields(some) ELSE InnerFields(some)   \* struct or newtype(inner)
+\* struct `V { my_field, n }`, a struct variant without fields `V {}` (serde writes an empty object, not what it writes for a unit variant),
+\* or newtype(inner)
+PayloadFields(v, some) == IF v.shape = "struct" THEN SVFields(some) ELSE IF v.shape = "empty" THEN <<>> ELSE InnerFields(some)
 Payload(v, some) == IF v.shape = "newtype" /\ v.payload = "str" THEN JStr(S_) ELSE JObj(PayloadFields(v, some))
 
 \* the value serde_json::to_value yields for sample (variant vi, all options Some / all None)
@@ -190,20 +194,20 @@ ExpectedKeys(d) == KeysOf(RefValue(d, 1, TRUE))
 OwnerField(d, key) ==      \* index of the struct field that produces top-level key `key`, 0 if none
   IF \E i \in DOMAIN d.fields : ~d.fields[i].flatten /\ FieldKey(d, i) = key
     THEN CHOOSE i \in DOMAIN d.fields : ~d.fields[i].flatten /\ FieldKey(d, i) = key
-  ELSE IF key \in {InA, InB} /\ \E i \in DOMAIN d.fields : d.fields[i].flatten
+  ELSE IF key \in {InA, InB, InZ} /\ \E i \in DOMAIN d.fields : d.fields[i].flatten
     THEN CHOOSE i \in DOMAIN d.fields : d.fields[i].flatten
   ELSE 0
 \* serde can neither omit nor default the key (struct, top level)
 Required(d, key) == LET i == OwnerField(d, key) IN
   /\ i # 0
-  /\ IF d.fields[i].flatten THEN key = InA
+  /\ IF d.fields[i].flatten THEN key \in {InA, InZ}
      ELSE AlwaysWritten(d.fields[i]) /\ ~Defaultable(d, d.fields[i])
 \* keys serde reads but never writes (skip_serializing): a schema may or may not document them (not asserted)
 ReadOnlyKeys(d) == IF d.kind # "struct" THEN {}
                    ELSE {FieldKey(d, i) : i \in {j \in DOMAIN d.fields : d.fields[j].skip = "ser" /\ ~d.fields[j].flatten}}
 
 \* does from_value still read the same variant after the key at `path` was removed from RefValue(d, vi, some)?
-InnerProbeOk(k) == k = InB                         \* in_a: String is needed, in_b: Option defaults
+InnerProbeOk(k) == k = InB                         \* in_a, in_z: String are needed, in_b: Option defaults
 SVProbeOk(k) == k = NKey
 \* a struct with a skip_serializing field that cannot be defaulted cannot read what it writes: nothing can be probed
 RefRoundtrip(d) == d.kind # "struct" \/ \A i \in DOMAIN d.fields : d.fields[i].skip = "ser" => Defaultable(d, d.fields[i])
@@ -370,7 +374,7 @@ SigOf(d, f) ==
 
 \* ------------------------------------------------------------------ what a correct derive may emit (one admissible schema per definition)
 NullOr(n) == [Node0 EXCEPT !.anyOf = <<n, NType("null")>>]
-InnerNode == NObj(<<P(InA, TRUE, NType("string")), P(InB, FALSE, NullOr(NType("integer")))>>)
+InnerNode == NObj(<<P(InZ, TRUE, NType("string")), P(InB, FALSE, NullOr(NType("integer"))), P(InA, TRUE, NType("string"))>>)
 SVProps == <<P(MyField, TRUE, NType("string")), P(NKey, FALSE, NullOr(NType("integer")))>>
 TyNode(f) == LET t == CASE f.ty = "str" -> NType("string") [] f.ty = "int" -> NType("integer") [] f.ty = "inner" -> InnerNode
                         [] f.ty = "bool" -> NType("boolean") IN
@@ -383,7 +387,7 @@ IdealProps(d, i) ==
         ELSE IF f.flatten THEN InnerNode.props
         ELSE <<P(FieldKey(d, i), AlwaysWritten(f) /\ ~Defaultable(d, f), TyNode(f))>>) \o IdealProps(d, i + 1)
 TagNode(tag) == [Node0 EXCEPT !.type = "string", !.enum = <<tag>>]
-PayloadProps(v) == IF v.shape = "struct" THEN SVProps ELSE InnerNode.props
+PayloadProps(v) == IF v.shape = "struct" THEN SVProps ELSE IF v.shape = "empty" THEN <<>> ELSE InnerNode.props
 PayloadNode(v) == IF v.shape = "newtype" /\ v.payload = "str" THEN NType("string") ELSE NObj(PayloadProps(v))
 IdealBranch(d, vi) ==
   LET v == d.variants[vi]
